@@ -184,14 +184,36 @@ fn real_main() {
                 let err = pr.error.clone();
                 let syms = pr.var_symbols();
                 let (smt, names) = pr.finish(&body, case.no_ties && theory == Th::Real, fp_bound);
+                // a Float32 identity is also printed over the reals: a real counterexample is a cheap candidate that the
+                // native replay confirms or rejects (it never discharges the Float32 obligation)
+                let mut smt_real = String::from("null");
+                let mut vars_real = String::from("null");
+                if theory == Th::Fp && !trivial(claim) && matches!(claim, B::Same(..) | B::Eq(..)) {
+                    let mut pr2 = Printer::new(Theory::Real);
+                    let mut body2 = pr2.assert_decisions(&path.pc);
+                    body2.push_str(&pr2.assert_decisions(&path.domain));
+                    for a in assume {
+                        let s = b2s(&mut pr2, a);
+                        body2.push_str(&format!("(assert {})\n", s));
+                    }
+                    let cs2 = b2s(&mut pr2, claim);
+                    body2.push_str(&format!("(assert (not {}))\n", cs2));
+                    if pr2.error.is_none() {
+                        let syms2 = pr2.var_symbols();
+                        let (s2, names2) = pr2.finish(&body2, false, None);
+                        smt_real = format!("\"{}\"", esc(&s2));
+                        let v2: Vec<String> = names2.iter().zip(syms2.iter()).map(|(n, s)| format!("[\"{}\",\"{}\"]", esc(n), s)).collect();
+                        vars_real = format!("[{}]", v2.join(","));
+                    }
+                }
                 let vars: Vec<String> = names.iter().zip(syms.iter()).map(|(n, s)| format!("[\"{}\",\"{}\"]", esc(n), s)).collect();
                 writeln!(
                     out,
-                    "{{\"case\":\"{}\",\"property\":\"{}\",\"family\":\"{}\",\"class\":\"{}\",\"path\":{},\"role\":\"{}\",\"kind\":\"{}\",\"theory\":\"{}\",\"trivial\":{},\"no_ties\":{},\"detail\":\"{}\",\"encode_error\":{},\"eq_terms\":{},\"vars\":[{}],\"smt\":\"{}\"}}",
+                    "{{\"case\":\"{}\",\"property\":\"{}\",\"family\":\"{}\",\"class\":\"{}\",\"path\":{},\"role\":\"{}\",\"kind\":\"{}\",\"theory\":\"{}\",\"trivial\":{},\"no_ties\":{},\"detail\":\"{}\",\"encode_error\":{},\"eq_terms\":{},\"vars\":[{}],\"smt_real\":{},\"vars_real\":{},\"smt\":\"{}\"}}",
                     esc(&case.id), case.property, esc(case.family), esc(&case.class), pi, esc(role), kind,
                     if theory == Th::Fp { "fp" } else { "real" }, trivial(claim), case.no_ties, esc(detail),
                     match err { Some(e) => format!("\"{}\"", esc(&e)), None => "null".into() },
-                    eq_terms, vars.join(","), esc(&smt)
+                    eq_terms, vars.join(","), smt_real, vars_real, esc(&smt)
                 ).unwrap();
             };
             for o in ctx.obls.iter() {
@@ -202,6 +224,10 @@ fn real_main() {
                 }
                 n_obl += 1;
                 emit(&o.role, o.kind, o.theory, &o.assume, &o.claim, o.fp_bound, &o.detail, &mut out);
+            }
+            if pi < 1 {
+                // vacuity witness: path condition and assumptions of this path must be satisfiable (expected `sat`)
+                emit("witness", "witness", Th::Real, &ctx.assumes, &B::True.not(), None, "path condition and assumptions are satisfiable", &mut out);
             }
             if let Err(msg) = r {
                 // the case itself panicked on this path: reachable iff the path condition is satisfiable
